@@ -3,7 +3,8 @@
 from .ecdsakey import ECDSAKey
 from ecdsa.curves import curves
 from ecdsa.util import sigencode_der, sigdecode_der
-from ecdsa.keys import VerifyingKey, SigningKey, BadSignatureError
+from ecdsa.keys import VerifyingKey, SigningKey, BadSignatureError, \
+    BadDigestError
 from ecdsa.ellipticcurve import Point
 from ecdsa.der import UnexpectedDER
 from . import tlshashlib
@@ -91,5 +92,7 @@ class Python_ECDSAKey(ECDSAKey):
                                                  compatHMAC(hash_bytes),
                                                  sigdecode_der)
         # https://github.com/warner/python-ecdsa/issues/114
-        except (BadSignatureError, UnexpectedDER, IndexError, AssertionError):
+        # (a digest too long for the curve can't be what was signed either)
+        except (BadSignatureError, BadDigestError, UnexpectedDER, IndexError,
+                AssertionError):
             return False
